@@ -1333,6 +1333,9 @@ func (c *Ctx) eofOriginsOfCall(fn *ssa.Function, r *ssa.Return, call *ssa.Call, 
 		return []*ssa.Call{call}
 	}
 	callee := calleeOrClosure(call)
+	if callee != nil && c.P.InLib(callee) && callee.Blocks != nil && deferMapsEOF(callee) {
+		return nil // a deferred function replaces an io.EOF in the callee's error result
+	}
 	if callee != nil && c.P.InLib(callee) && callee.Blocks != nil && depth < 6 {
 		for _, rr := range ir.Returns(callee) {
 			if len(rr.Results) == 0 {
@@ -1344,6 +1347,65 @@ func (c *Ctx) eofOriginsOfCall(fn *ssa.Function, r *ssa.Return, call *ssa.Call, 
 		}
 	}
 	return nil
+}
+
+// deferMapsEOF: fn defers a function literal that, when the named error result
+// matches io.EOF, assigns it something else (io.ErrUnexpectedEOF, wrapped or
+// not): whatever fn returns no longer matches io.EOF.
+func deferMapsEOF(fn *ssa.Function) bool {
+	found := false
+	instrsOf(fn, func(i ssa.Instruction) {
+		d, ok := i.(*ssa.Defer)
+		if !ok || found {
+			return
+		}
+		mc, ok := d.Call.Value.(*ssa.MakeClosure)
+		if !ok {
+			return
+		}
+		g, ok := mc.Fn.(*ssa.Function)
+		if !ok || g.Blocks == nil {
+			return
+		}
+		for _, ce := range ir.CondEdges(g) {
+			ev, isT := isEOFTest(ce.Cond)
+			if !isT || ce.If == nil {
+				continue
+			}
+			matches := ce.Truth
+			if bo, isB := ce.Cond.(*ssa.BinOp); isB && bo.Op == token.NEQ {
+				matches = !matches
+			}
+			ld, isLd := ev.(*ssa.UnOp)
+			if !matches || !isLd {
+				continue
+			}
+			fv, isFV := ld.X.(*ssa.FreeVar)
+			if !isFV || !readBackAfterDefers(fv) {
+				continue
+			}
+			start := g.Blocks[ce.Edge.To]
+			for _, b := range g.Blocks {
+				if b != start && !start.Dominates(b) {
+					continue
+				}
+				for _, in := range b.Instrs {
+					st, isSt := in.(*ssa.Store)
+					if !isSt || st.Addr != ssa.Value(fv) {
+						continue
+					}
+					if l2, same := st.Val.(*ssa.UnOp); same && l2.X == ssa.Value(fv) {
+						continue
+					}
+					if isGlobalLoad(st.Val, "io.EOF") {
+						continue
+					}
+					found = true
+				}
+			}
+		}
+	})
+	return found
 }
 
 // edgeExcludesEOF: the CFG edge pred->blk lies behind the false edge of an EOF
